@@ -6,16 +6,20 @@ from harness import core, p2lib
 
 ID = 'C07'
 MODULE = 'Gpv.Props.C07'
-THEOREMS = core.theorems('C07')
+MODULES = ['Gpv.Props.C07', 'Gpv.Props.C07Float']
+THEOREMS = core.theorems('C07', 'C07Float')
 RULE = ('grid (linear 2-12 markers, arbitrary sorted grids, QuantileEstimator p incl. 0.01/0.99, median) x sequence family '
         '(uniform, heavily tied, constant, sorted, reversed, |x| to 1e300, integers, gaussian) x shape (scalar, 1-d, 2-d arrays); '
         'after EVERY observation the invariants are checked through the public read-outs (oracle) and the implementation state is '
         'compared in lock-step with the Lean model run at binary64 from the implementation\'s previous state (ranks exact, heights '
         'rtol 1e-9; a difference is counted as ambiguous, not reported, only when a decision of that step lies within 1e-9 of its '
         'threshold). non-trivial: at least one tie and at least one marker adjustment; distinct by (grid, sequence).')
-PARTIAL = ['the theorems are over exact ordered fields; in binary64 they rest on: comparisons form a total order on finite floats, '
-           'fl(h_i + (h_j-h_i)/k) stays between h_i and h_j for k >= 2 (monotone rounding, no overflow for |x| <= 1e300), ranks < 2^53 '
-           'are exact — trusted, and exercised by the lock-step run at Float']
+PARTIAL = ['binary64: besides the theorems over exact ordered fields, the same invariants are proved for the UNCHANGED generic model '
+           'instantiated at rounded arithmetic (C07Float.*, Proofs/Rounded.lean: every operation rounds its exact result by a monotone, '
+           'idempotent, sign-symmetric fl with relative error u, (1+u)^2 <= 2, integers up to N exact; n <= N): heights sorted (non-strictly), '
+           'first/last marker = exact min/max, heights within the data range, ranks integers strictly increasing 0..n-1. Overflow, '
+           'subnormals, NaN/inf and -0.0 are outside that model (binary64 satisfies its laws for |x| in the normal range and n < 2^53: '
+           'assumed, not proved about Lean Float); the read-outs (q_actual, interp) are proved over exact fields only; exercised by the lock-step run at Float']
 ASSUMPTIONS = ['observations are finite and contain no -0.0 / NaN']
 
 
@@ -89,7 +93,26 @@ def gen_case(rng, quick):
     shape = rng.choice([(), (), (), (2,), (3,), (2, 2)])
     ncomp = int(np.prod(shape)) if shape else 1
     cols = [p2lib.gen_seq(rng, n, fam if c == 0 else rng.choice(p2lib.FAMILIES)) for c in range(ncomp)]
-    return dict(spec=spec, family=fam, n=n, shape=list(shape), cols=cols)
+    case = dict(spec=spec, family=fam, n=n, shape=list(shape), cols=cols)
+    if rng.random() < 0.25:
+        # observations of different floating widths: the FIRST one narrow (float32 / float16), later ones mostly float64 with
+        # values the narrow type cannot hold; a narrow observation's value is rounded to its type beforehand, so the model
+        # and the oracle see exactly the number the estimator is given
+        narrow = rng.choice(['float32', 'float32', 'float16'])
+        dts = []
+        for i in range(n):
+            d = narrow if (i == 0 or rng.random() < 0.15) else 'float64'
+            with np.errstate(over='ignore'):
+                conv = [float(np.dtype(d).type(cols[c][i])) for c in range(ncomp)]
+            if d != 'float64' and not all(np.isfinite(v) and (v != 0 or cols[c][i] == 0) for c, v in enumerate(conv)):
+                d = 'float64'
+                conv = [cols[c][i] for c in range(ncomp)]
+            for c in range(ncomp):
+                cols[c][i] = conv[c]
+            dts.append(d)
+        case['dtypes'] = dts
+    case['roundtrip'] = p2lib.gen_roundtrips(rng, n)
+    return case
 
 
 def run_case(ctx, case, rng, lines, posts):
@@ -100,10 +123,19 @@ def run_case(ctx, case, rng, lines, posts):
     n = case['n']
     ok = True
     adjusted = False
+    trips = {}
+    for i, kind in case.get('roundtrip') or []:
+        trips.setdefault(i, []).append(kind)
     for i in range(n):
+        for kind in trips.get(i, []):
+            est = p2lib.roundtrip(est, kind)
         pre = [p2lib.state(est, c if shape else None) for c in range(ncomp)]
         obs = [case['cols'][c][i] for c in range(ncomp)]
-        x = np.array(obs, dtype=float).reshape(shape) if shape else obs[0]
+        dt = (case.get('dtypes') or ['float64'] * n)[i]
+        if shape:
+            x = np.array(obs, dtype=dt).reshape(shape)
+        else:
+            x = obs[0] if dt == 'float64' else np.dtype(dt).type(obs[0])
         try:
             est.accumulate(x)
         except Exception as e:  # noqa
@@ -121,7 +153,7 @@ def run_case(ctx, case, rng, lines, posts):
 
 
 def small(case):
-    return dict(spec=case['spec'], family=case['family'], n=case['n'], shape=case['shape'],
+    return dict(spec=case['spec'], family=case['family'], n=case['n'], shape=case['shape'], dtypes=case.get('dtypes'), roundtrip=case.get('roundtrip'),
                 cols=[c if len(c) <= 40 else c[:40] + ['...(%d more; regenerate with the seed)' % (len(c) - 40)] for c in case['cols']])
 
 
@@ -216,7 +248,8 @@ def check(ctx):
 def replay(ctx, data):
     case = data['case']
     if any(isinstance(t, str) for c in case['cols'] for t in c):
-        raise core.InfraError('replay needs the full sequence: rerun the check with the recorded seed')
+        check(ctx)       # the sequence was cut short in the file: regenerate everything under the recorded seed and tier
+        return
     lines, posts = [], []
     run_case(ctx, case, ctx.rng, lines, posts)
     compare_lockstep(ctx, lines, posts)
